@@ -162,7 +162,17 @@ fn run16v(toks: &[&str], wk: &mut Wakers, out: &mut String, mut tok_end: impl Fn
                                     sd.clone_from(&scratch_tx);
                                 }
                             }
-                            drop(senders[i].take());
+                            // every third drop happens while the thread unwinds from a panic (the sender is owned by a closure
+                            // that panics): still the drop of a sender
+                            let sd = senders[i].take();
+                            if k % 3 == 1 {
+                                let _ = std::panic::catch_unwind(std::panic::AssertUnwindSafe(move || {
+                                    let _owned = sd;
+                                    panic!("unwinding past a sender");
+                                }));
+                            } else {
+                                drop(sd);
+                            }
                             out.push('-');
                         }
                         _ => {
@@ -200,7 +210,14 @@ fn run16v(toks: &[&str], wk: &mut Wakers, out: &mut String, mut tok_end: impl Fn
             b'r' => match rx.take() {
                 None => out.push('!'),
                 Some(r) => {
-                    drop(r);
+                    if k % 2 == 1 {
+                        let _ = std::panic::catch_unwind(std::panic::AssertUnwindSafe(move || {
+                            let _owned = r;
+                            panic!("unwinding past the receiver");
+                        }));
+                    } else {
+                        drop(r);
+                    }
                     out.push('-');
                 }
             },
